@@ -1962,7 +1962,6 @@ CK_RV SoftHSM::C_FindObjectsInit(CK_SESSION_HANDLE hSession, CK_ATTRIBUTE_PTR pT
 	// Check if we have another operation
 	if (session->getOpType() != SESSION_OP_NONE) return CKR_OPERATION_ACTIVE;
 
-	session->setOpType(SESSION_OP_FIND);
 	FindOperation *findOp = FindOperation::create();
 
 	// Check if we are out of memory
@@ -2075,6 +2074,8 @@ CK_RV SoftHSM::C_FindObjectsInit(CK_SESSION_HANDLE hSession, CK_ATTRIBUTE_PTR pT
 	// whenever a stale object handle is used to access the library.
 	findOp->setHandles(handles);
 
+	// Only now is the search active; the error paths above leave no operation behind
+	session->setOpType(SESSION_OP_FIND);
 	session->setFindOp(findOp);
 
 	return CKR_OK;
